@@ -185,7 +185,7 @@ func reencode(buf []byte, t *tlv, choose func(t *tlv) int) []byte {
 		out = append(out, 0x80)
 		out = append(out, content...)
 		out = append(out, 0, 0)
-	case form == lfLong && len(content) < 0x80:
+	case form == lfLong && len(content) < 0x80 && len(content) > 0: // (0x81 0x00 is valid BER too, but the normaliser refuses a zero length octet; not part of the property)
 		out = append(out, 0x81, byte(len(content)))
 		out = append(out, content...)
 	default:
@@ -307,7 +307,7 @@ func tlvSelfTest() error {
 		return fmt.Errorf("tlv self-test: indefinite form %x want %x", ind, want)
 	}
 	lg := reencode(g, t, func(*tlv) int { return lfLong })
-	want = []byte{0x30, 0x81, 0x0b, 0x02, 0x81, 0x01, 0x05, 0x31, 0x81, 0x03, 0x05, 0x81, 0x00}
+	want = []byte{0x30, 0x81, 0x09, 0x02, 0x81, 0x01, 0x05, 0x31, 0x81, 0x02, 0x05, 0x00}
 	if !bytes.Equal(lg, want) {
 		return fmt.Errorf("tlv self-test: long form %x want %x", lg, want)
 	}
